@@ -63,7 +63,7 @@ def parse(out):
     return res
 
 
-def run(scratch, harness, td, timeout_s, mem_gb=20, extra=(), logdir=None, playback=False, full=None):
+def run(scratch, harness, td, timeout_s, mem_gb=20, extra=(), logdir=None, playback=False, full=None, only_property=None):
     """Run `cargo kani` for one harness. Returns the parsed dict + 'outcome' in
     {pass, fail, inconclusive} and the raw log path."""
     os.makedirs(td, exist_ok=True)
@@ -71,12 +71,16 @@ def run(scratch, harness, td, timeout_s, mem_gb=20, extra=(), logdir=None, playb
     if playback:
         args += ["-Z", "concrete-playback", "--concrete-playback=print"]
     args += list(extra)
+    if only_property:
+        # restrict CBMC to the one failed check: the trace is all that is wanted, and slicing
+        # to one property makes trace generation several times cheaper
+        args += ["-Z", "unstable-options", "--cbmc-args", "--property", "'" + only_property + "'"]
     cmd = f"ulimit -v {int(mem_gb * 1024 * 1024)}; exec " + " ".join(args)
     t0 = time.time()
     logp = None
     if logdir:
         os.makedirs(logdir, exist_ok=True)
-        logp = os.path.join(logdir, harness.replace("::", ".") + (".playback" if playback else "") + ".log")
+        logp = os.path.join(logdir, harness.replace("::", ".") + (".playback" if playback else "") + (("." + str(abs(hash(only_property)) % 10000)) if only_property else "") + ".log")
     p = subprocess.Popen(
         ["bash", "-c", cmd],
         cwd=scratch,
